@@ -316,7 +316,7 @@ func fragParseBytes(g *Gen, n int, o *Out) {
 		"a == \"\\400\"", "a[\"", "a[", "a[\"x\"", "(", "((", "(a == 1", "a == 1)", "a ==", "== 1", "a == 1 and", "all a as x {", "all a as x { x == 1",
 		"any a as {x == 1}", "a == 1.", "a == 01", "a == -", "a == 1x", "1 in", "1 in 2", "\"/\" == 1", "\"/a~\" == 1", "\"/a~2\" == 1", "\"a\" == 1", "\"\" == 1",
 		"a == \"\xe2\x82\"", "é == 1", "a.é == 1", "\"/é\" == 1", "a\r\n==\r\n1", "a\v== 1", "a == 1\x00", "\xef\xbf\xbd == 1", "\"/\xef\xbf\xbd\" == 1",
-		"a == \"\\ud800\"", "a matches \"(\"", "foo not matches `[z-a]`", "a matches \"a**\"", "k in x", "\va == 1", "a == 1\f", "\u00a0a == 1", "a == 1\u00a0", "\u0085a == 1", "a == 1\u2003", "\u3000a == 1\u3000", "\v", "\f", "\u00a0", "\u2003 ", "a is  not  empty", "a is notempty", "a isempty", "not", "not not", "not not a == 1", "a == 1 or", "or", "and a == 1"}
+		"a == \"\\ud800\"", "all ports as p { p != 0}", "any a as x {x == 1}", "\"/m\u00b2\" == 12", "\"/\u2163\" == 1", "a == `line one\r\nline two`", "a == `\r`", "a matches \"(\"", "foo not matches `[z-a]`", "a matches \"a**\"", "k in x", "\va == 1", "a == 1\f", "\u00a0a == 1", "a == 1\u00a0", "\u0085a == 1", "a == 1\u2003", "\u3000a == 1\u3000", "\v", "\f", "\u00a0", "\u2003 ", "a is  not  empty", "a is notempty", "a isempty", "not", "not not", "not not a == 1", "a == 1 or", "or", "and a == 1"}
 	for _, s := range seeds {
 		emitParse(o, 0, s)
 		shapeOracle(o, s)
